@@ -120,7 +120,8 @@ bool FeatureChecker::isRateDisallowedInSymbolic(const expression_t& e)
         }
 
         // rates over hybrid clocks are allowed, because they are ignored/abstracted in symbolic analysis
-        if (clock.get(0).get_symbol().get_type().is(Constants::HYBRID))
+        if (const auto symbol = clock.get(0).get_symbol();
+            symbol != symbol_t() && symbol.get_type().is(Constants::HYBRID))
             return false;
 
         if (rate.get_kind() != Constants::CONSTANT)
